@@ -4,6 +4,25 @@ from .runner import (V, expr, expr_is, is_assign_to, is_expr_call, replace_expr,
                      replace_stmt, src_is, stmt)
 
 E = "liesel/goose/engine.py"
+
+
+def _replace_name(node, old, new):
+    class T(ast.NodeTransformer):
+        def visit_Attribute(self, n_):
+            if ast.unparse(n_) == old:
+                return ast.Name(id=new, ctx=ast.Load())
+            return self.generic_visit(n_)
+    return T().visit(node)
+
+
+def _replace_stmt_in(node, old, new):
+    class T(ast.NodeTransformer):
+        def visit_Assign(self, n_):
+            if ast.unparse(n_) == ast.unparse(ast.parse(old).body[0]):
+                return ast.parse(new).body[0]
+            return n_
+    return T().visit(node)
+
 K = "liesel/goose/kernel.py"
 P = "liesel/goose/epoch.py"
 Q = "liesel/goose/kernel_sequence.py"
@@ -70,7 +89,20 @@ VARIANTS = [
     V("c07_time_in_epoch_not_advanced", "M", P, "EpochState.advance_time",
       *replace_stmt("self.time_in_epoch = self.time_in_epoch + by", None),
       note="within-epoch time frozen", expect_rule="C07.R3"),
+    V("c07_stale_epoch", "M", E, "Engine._sample_for_duration",
+      lambda nd: isinstance(nd, ast.For),
+      lambda nd: stmt("epoch0 = self.current_epoch") + [ast.fix_missing_locations(
+          _replace_name(nd, "self.current_epoch", "epoch0"))],
+      note="epoch clock hoisted out of the chunk loop: every chunk restarts at the same time",
+      expect_rule="C07.R3"),
     # ---- twins
+    V("c07_t_split_once", "T", E, "Engine._sample_for_duration",
+      lambda nd: isinstance(nd, ast.For),
+      lambda nd: stmt("all_keys = self._split_prng_key(duration)") + [ast.fix_missing_locations(
+          _replace_stmt_in(nd, "keys = self._split_prng_key(self._jitted_sample_duration)",
+                           "keys = all_keys[:, dur_i * self._jitted_sample_duration:"
+                           "dur_i * self._jitted_sample_duration + self._jitted_sample_duration, :]"))],
+      note="keys split once for the whole duration and sliced per chunk (the FIXME refactor)"),
     V("c07_t_latch_after_call", "T", E, "Engine",
       lambda nd: isinstance(nd, ast.If) and "_warmup_has_ended" in ast.unparse(nd.test),
       lambda nd: ast.If(test=nd.test, body=nd.body + stmt("self._warmup_has_ended = True"),
